@@ -12,7 +12,7 @@ use serde_json::{json, Value};
 use std::collections::BTreeSet;
 use zipora::fsa::{
     CompressedSparseTrie, ConcurrencyLevel, DoubleArrayTrie, DoubleArrayTrieConfig, FiniteStateAutomaton,
-    NestedLoudsTrie, NestedTrieDawg, SimpleDawg, Trie, ZiporaTrie, ZiporaTrieConfig,
+    NestedLoudsTrie, NestedTrieDawg, SimpleDawg, StorageStrategy, Trie, TrieStrategy, ZiporaTrie, ZiporaTrieConfig,
 };
 use zipora::memory::{SecureMemoryPool, SecurePoolConfig};
 use zipora::succinct::RankSelectInterleaved256;
@@ -45,6 +45,7 @@ const KEYS: u64 = 4;
 const PRE: u64 = 5;
 const ACC: u64 = 6;
 const LP: u64 = 7;
+const CLONE: u64 = 8; // trie = trie.clone(); the model treats it as a no-op (code 9)
 
 #[derive(Clone, Copy, PartialEq, Debug)]
 enum Kind { Patricia, Sparse, Louds, CritBit, DoubleArray, Dawg }
@@ -63,6 +64,8 @@ trait Tr {
     fn accepts(&self, _k: &[u8]) -> Option<bool> { None }
     fn lookup_some(&self, _k: &[u8]) -> Option<bool> { None }
     fn lp(&self, _q: &[u8]) -> Option<Option<usize>> { None }
+    /// replace self by its Clone (ZiporaTrie::clone re-inserts keys() into a fresh trie)
+    fn reclone(&mut self) -> bool { false }
 }
 
 struct Z(ZiporaTrie);
@@ -76,6 +79,7 @@ impl Tr for Z {
     fn accepts(&self, k: &[u8]) -> Option<bool> { Some(self.0.accepts(k)) }
     fn lookup_some(&self, k: &[u8]) -> Option<bool> { Some(Trie::lookup(&self.0, k).is_some()) }
     fn lp(&self, q: &[u8]) -> Option<Option<usize>> { Some(self.0.longest_prefix(q)) }
+    fn reclone(&mut self) -> bool { self.0 = self.0.clone(); true }
 }
 /// ZiporaTrie driven through the `Trie` trait only (insert returns a state id).
 struct ZT(ZiporaTrie);
@@ -142,6 +146,11 @@ const CELLS: &[CellDef] = &[
     CellDef { name: "ZiporaTrie/default/via-Trie-trait", kind: Kind::Patricia, status: "M+S" },
     CellDef { name: "PatriciaTrie(alias)", kind: Kind::Patricia, status: "M+S" },
     CellDef { name: "CritBitTrie(alias)", kind: Kind::Patricia, status: "M+S" },
+    CellDef { name: "ZiporaTrie/custom(Patricia,Succinct)", kind: Kind::Patricia, status: "M+S" },
+    CellDef { name: "ZiporaTrie/custom(CompressedSparse,Hybrid)", kind: Kind::Sparse, status: "M+S" },
+    CellDef { name: "ZiporaTrie/custom(Louds,Standard)", kind: Kind::Louds, status: "M+S" },
+    CellDef { name: "ZiporaTrie/custom(DoubleArray,CacheOptimized)", kind: Kind::DoubleArray, status: "S-only" },
+    CellDef { name: "ZiporaTrie/custom(CriticalBit,Standard)", kind: Kind::CritBit, status: "finding" },
     CellDef { name: "ZiporaTrie/sparse_optimized", kind: Kind::Sparse, status: "M+S" },
     CellDef { name: "CompressedSparseTrie(wrapper)", kind: Kind::Sparse, status: "M+S" },
     CellDef { name: "ZiporaTrie/space_optimized", kind: Kind::Louds, status: "M+S" },
@@ -169,6 +178,35 @@ fn make(cell: &str) -> Result<Box<dyn Tr>, String> {
             "ZiporaTrie/concurrent_high_performance" => {
                 let pool = SecureMemoryPool::new(SecurePoolConfig::small_secure()).map_err(|e| format!("{:?}", e))?;
                 Box::new(Z(ZiporaTrie::with_config(ZiporaTrieConfig::concurrent_high_performance(pool))))
+            }
+            n if n.starts_with("ZiporaTrie/custom(") => {
+                // every TrieStrategy crossed with a StorageStrategy other than the one its preset uses
+                let mut c = ZiporaTrieConfig::default();
+                let std_storage = StorageStrategy::Standard { initial_capacity: 3, growth_factor: 1.1 };
+                match n {
+                    "ZiporaTrie/custom(Patricia,Succinct)" => {
+                        c.trie_strategy = TrieStrategy::Patricia { max_path_length: 2, compression_threshold: 1, adaptive_compression: false };
+                        c.storage_strategy = ZiporaTrieConfig::space_optimized().storage_strategy;
+                        c.cache_optimization = false;
+                    }
+                    "ZiporaTrie/custom(CompressedSparse,Hybrid)" => {
+                        c.trie_strategy = ZiporaTrieConfig::sparse_optimized().trie_strategy;
+                        c.storage_strategy = StorageStrategy::Hybrid { primary: Box::new(std_storage.clone()), secondary: Box::new(ZiporaTrieConfig::cache_optimized().storage_strategy), switch_threshold: 2 };
+                    }
+                    "ZiporaTrie/custom(Louds,Standard)" => {
+                        c.trie_strategy = TrieStrategy::Louds { nesting_levels: 1, fragment_compression: false, adaptive_backends: false, cache_aligned: true };
+                        c.storage_strategy = std_storage;
+                    }
+                    "ZiporaTrie/custom(DoubleArray,CacheOptimized)" => {
+                        c.trie_strategy = TrieStrategy::DoubleArray { initial_capacity: 0, growth_factor: 1.0, free_list_management: false, auto_shrink: true };
+                        c.storage_strategy = ZiporaTrieConfig::cache_optimized().storage_strategy;
+                    }
+                    _ => {
+                        c.trie_strategy = ZiporaTrieConfig::string_specialized().trie_strategy;
+                        c.storage_strategy = std_storage;
+                    }
+                }
+                Box::new(Z(ZiporaTrie::with_config(c)))
             }
             "DoubleArrayTrie(wrapper)" => Box::new(WDa(DoubleArrayTrie::new())),
             "DoubleArrayTrie(wrapper,capacity=1)" => {
@@ -335,10 +373,16 @@ fn history(cx: &mut Ctx, cell: &CellDef, ops: &[Op], force_coq: bool) {
                     }
                 }
             }
+            CLONE => {
+                match guarded(|| t.reclone()) {
+                    Err(p) => { fail!(None, "step {}: clone panicked: {}", step, p); coq_ok = false; break; }
+                    Ok(_) => { obs.push("[]".into()); unavailable.push(step); }
+                }
+            }
             _ => { obs.push("[]".into()); }
         }
         // after every mutation: len and membership of every key of the history
-        if *op <= REM && !failed {
+        if (*op <= REM || *op == CLONE) && !failed {
             match guarded(|| (t.len(), pool.iter().map(|q| t.contains(q)).collect::<Vec<bool>>())) {
                 Err(p) => { fail!(None, "step {}: len/contains panicked after the mutation: {}", step, p); coq_ok = false; }
                 Ok((n, bs)) => {
@@ -402,6 +446,20 @@ fn gen_pool(r: &mut Rng, long: bool) -> Vec<Key> {
         }
         pool.push(k);
     }
+    // a fan: one node with many children at boundary and random symbols (wide nodes, sibling order in the DFS,
+    // neighbouring slots in the double array), sometimes a second level under one of them
+    if r.chance(1, 2) {
+        let base = r.pick(&pool).clone();
+        let n = r.range(3, 9);
+        let mut last: Key = base.clone();
+        for _ in 0..n {
+            let b = if r.chance(2, 3) { *r.pick(&[0x00u8, 0x01, 0x7F, 0x80, 0xFD, 0xFE, 0xFF, b'a']) } else { r.next() as u8 };
+            let mut k = base.clone(); k.push(b);
+            last = k.clone();
+            pool.push(k);
+        }
+        if r.chance(1, 2) { for b in [0x00u8, 0xFE, 0xFF] { let mut k = last.clone(); k.push(b); pool.push(k); } }
+    }
     for b in [0x00u8, 0xFF, b'a'] { if r.chance(1, 3) { pool.push(vec![b]); } }
     if long && r.chance(1, 2) {
         let n = *r.pick(&[254usize, 255, 256, 257, 300]);
@@ -431,7 +489,7 @@ fn gen_history(r: &mut Rng, long: bool) -> Vec<Op> {
                 ops.push((REM, k));
             }
             13..=14 => ops.push((HAS, k)),
-            15 => ops.push((LEN, vec![])),
+            15 => ops.push((if r.chance(1, 3) { CLONE } else { LEN }, vec![])),
             16 => ops.push((if r.chance(1, 2) { KEYS } else { PRE }, if k.len() > 3 { k[..r.below(4) as usize].to_vec() } else { k })),
             17 => ops.push((ACC, k)),
             _ => { let mut q = k; if r.chance(1, 2) { q.push(*r.pick(&[0u8, 0xFF, b'a'])); if r.chance(1, 2) { q.push(r.next() as u8); } } ops.push((LP, q)); }
